@@ -32,6 +32,31 @@
 (*      spliced from another message.  spec/mc/MC_Decode_gen enumerates    *)
 (*      them with TLC and prints one plan per (layout, field).             *)
 (*                                                                         *)
+(*  (3) the CATALOGUE OF POST-DECODE STEPS.  A decoder returning Ok is not   *)
+(*      the end of the untrusted path: the message handlers                *)
+(*      (p2p/src/protocol.rs `consume`, servers/src/common/adapters.rs,    *)
+(*      chain/src/pipe.rs up to the first store access, the desegmenter's  *)
+(*      add_*_segment, the pool's add_to_pool up to the first chain        *)
+(*      access, the API handlers) apply conversions, accessors and         *)
+(*      stateless checks to the freshly decoded value unconditionally,     *)
+(*      before anything has been validated (`BitmapSegment::into_segment`  *)
+(*      on every OutputBitmapSegment, `UntrustedBlock -> Block`,           *)
+(*      `Block::hydrate_from`, `Segment::validate`, identifier arithmetic, *)
+(*      fee arithmetic ...).  PostSteps(d) lists them per decoder, in the  *)
+(*      order the handlers run them; the machine runs them inside the call *)
+(*      (PostStep) and the contract covers them: a call that ends while    *)
+(*      step s is in progress still has out \in {ok, err} and stays within *)
+(*      the resource bound.  The harness must implement exactly this       *)
+(*      catalogue (MC_Decode_gen!StepsAgree compares it with the table the *)
+(*      harness exports), every End event names the step in progress, and  *)
+(*      the trace specification accepts a run only if every step it names  *)
+(*      is in the catalogue (and the driver: only if every catalogued step *)
+(*      was executed).  The identifier fields of segments get a JOINT      *)
+(*      boundary plan (IdentOps: height 0..255 x idx near every 2^k, and   *)
+(*      idx * 2^height on the wrap-around boundaries 2^62, 2^63, 2^64),    *)
+(*      segment proofs a consistent re-encoding one hash short / long /    *)
+(*      empty (ProofOps).                                                  *)
+(*                                                                         *)
 (* ALLOCATION BOUNDS (bytes live above the level at Begin, on the decoding *)
 (* thread).  Fixed after measuring the honest maxima on valid encodings    *)
 (* (see evidence/C11.json "honest_max_peak"):                              *)
@@ -84,6 +109,56 @@ GoodOutcomes == {"ok", "err"}
 AllOutcomes  == GoodOutcomes \cup {"panic", "abort", "hang"}
 
 -----------------------------------------------------------------------------
+(* (3) the catalogue of post-decode steps                                   *)
+SegSteps == <<"SegmentIdentifier::arith", "Segment::segment_pos_range", "Segment::root", "Segment::first_unpruned_parent",
+              "Segment::validate", "Segment::validate_with", "Segment::accessors", "Segment::parts">>
+BitmapSteps == <<"BitmapSegment::into_segment">> \o SegSteps \o <<"BitmapAccumulator::append_chunk", "BitmapSegment::from<Segment>">>
+SegReqSteps == <<"SegmentIdentifier::arith", "Segment::from_pmmr">>
+TxSteps == <<"Transaction::validate_read", "Transaction::hash", "Transaction::fees", "Inputs::conversions", "TxKernel::verify",
+             "Transaction::validate">>
+HeaderSteps == <<"BlockHeader::accessors", "ProofOfWork::to_difficulty">>
+BlockSteps == <<"Block::validate_read", "Block::hash">> \o HeaderSteps \o
+              <<"Block::total_fees", "Inputs::conversions", "Block::verify_coinbase", "Block::validate", "CompactBlock::from<Block>">>
+CompactSteps == <<"CompactBlock::accessors">> \o HeaderSteps \o <<"Block::hydrate_from", "Block::validate">>
+MerkleSteps == <<"MerkleProof::verify", "MerkleProof::to_hex">>
+\* Protocol::consume dispatches on the message type: Codec::read is followed by the steps of whatever it delivered
+CodecSteps == <<"Message::fmt">> \o TxSteps \o <<"UntrustedBlock::into<Block>", "Block::validate_read", "Block::hash">> \o HeaderSteps \o
+              <<"Block::total_fees", "Block::verify_coinbase", "Block::validate", "CompactBlock::from<Block>",
+                "UntrustedCompactBlock::into<CompactBlock>", "CompactBlock::accessors", "Block::hydrate_from",
+                "UntrustedBlockHeader::into<BlockHeader>", "Locator::accessors", "PeerAddrs::accessors",
+                "TxHashSetArchive::attachment_meta", "SegmentIdentifier::arith", "Segment::from_pmmr", "BitmapSegment::into_segment",
+                "Segment::segment_pos_range", "Segment::root", "Segment::first_unpruned_parent", "Segment::validate",
+                "Segment::validate_with", "Segment::accessors", "Segment::parts", "BitmapAccumulator::append_chunk",
+                "BitmapSegment::from<Segment>">>
+
+PostSteps(d) ==
+    CASE d \in SegmentDecoders -> SegSteps
+      [] d \in BitmapDecoders  -> BitmapSteps
+      [] d \in {"SegmentRequest::read", "SegmentIdentifier::read"} -> SegReqSteps
+      [] d \in {"Transaction::read", "api::push_tx_hex"} -> TxSteps
+      [] d = "TransactionBody::read" -> <<"TransactionBody::validate_read">>
+      [] d = "TxKernel::read" -> <<"TxKernel::verify", "TxKernel::accessors">>
+      [] d = "BlockHeader::read" -> HeaderSteps
+      [] d = "UntrustedBlockHeader::read" -> <<"UntrustedBlockHeader::into<BlockHeader>">> \o HeaderSteps
+      [] d = "Block::read" -> BlockSteps
+      [] d = "UntrustedBlock::read" -> <<"UntrustedBlock::into<Block>">> \o BlockSteps
+      [] d = "CompactBlock::read" -> CompactSteps
+      [] d = "UntrustedCompactBlock::read" -> <<"UntrustedCompactBlock::into<CompactBlock>">> \o CompactSteps
+      [] d \in {"MerkleProof::read", "MerkleProof::from_hex"} -> MerkleSteps
+      [] d = "SegmentProof::read" -> <<"SegmentProof::reconstruct_root", "SegmentProof::validate", "SegmentProof::validate_with">>
+      [] d \in {"Hand::read", "msg::read_message<Hand>"} -> <<"Hand::accessors">>
+      [] d \in {"Shake::read", "msg::read_message<Shake>"} -> <<"Shake::accessors">>
+      [] d = "PeerAddrs::read" -> <<"PeerAddrs::accessors">>
+      [] d = "PeerAddr::read" -> <<"PeerAddr::as_key">>
+      [] d = "Locator::read" -> <<"Locator::accessors">>
+      [] d = "TxHashSetArchive::read" -> <<"TxHashSetArchive::attachment_meta">>
+      [] d = "util::from_hex" -> <<"Commitment::from_vec", "Hash::from_vec">>
+      [] d = "Codec::read" -> CodecSteps
+      [] OTHER -> <<>>
+StepSet(d) == {PostSteps(d)[i] : i \in 1..Len(PostSteps(d))}
+StepName(d, i) == IF i = 0 THEN "" ELSE PostSteps(d)[i]
+
+-----------------------------------------------------------------------------
 (* (1) the protocol machine                                                *)
 CONSTANTS ModelDecoders,   \* decoder names used by the bounded model
           ModelLens,       \* input lengths used by the bounded model
@@ -93,21 +168,29 @@ VARIABLES phase,   \* "idle" | "call" | "stream"
           cur,     \* [dec, ct, ver, len] of the call in progress
           used,    \* bytes consumed so far by the call in progress
           reads,   \* stream decoders: messages delivered so far by the call in progress
+          pstep,   \* index in PostSteps(cur.dec) of the post-decode step in progress (0: the decoder itself is running)
           last     \* outcome record of the last finished call
 
-vars == <<phase, cur, used, reads, last>>
+vars == <<phase, cur, used, reads, pstep, last>>
 
 NoCall == [dec |-> "-", ct |-> "auto", ver |-> 0, len |-> 0]
-NoLast == [out |-> "ok", used |-> 0, reads |-> 0, peak |-> 0, len |-> 0, dec |-> "-", ct |-> "auto"]
+NoLast == [out |-> "ok", used |-> 0, reads |-> 0, peak |-> 0, len |-> 0, dec |-> "-", ct |-> "auto", step |-> ""]
 
-Init == phase = "idle" /\ cur = NoCall /\ used = 0 /\ reads = 0 /\ last = NoLast
+Init == phase = "idle" /\ cur = NoCall /\ used = 0 /\ reads = 0 /\ pstep = 0 /\ last = NoLast
 
 Begin(d, ct, v, len) ==
     /\ phase = "idle"
     /\ phase' = IF d \in StreamDecoders THEN "stream" ELSE "call"
     /\ cur' = [dec |-> d, ct |-> ct, ver |-> v, len |-> len]
-    /\ used' = 0 /\ reads' = 0
+    /\ used' = 0 /\ reads' = 0 /\ pstep' = 0
     /\ UNCHANGED last
+
+\* the decoder returned a value (a stream decoder: delivered a message) and the handler runs its next unconditional step on it
+PostStep ==
+    /\ phase \in {"call", "stream"}
+    /\ pstep < Len(PostSteps(cur.dec))
+    /\ pstep' = pstep + 1
+    /\ UNCHANGED <<phase, cur, used, reads, last>>
 
 \* one delivered message of a stream decoder: it consumed n bytes.  The contract demands n >= 1.
 Read(n) ==
@@ -115,20 +198,23 @@ Read(n) ==
     /\ n \in 0..(cur.len - used)
     /\ (Env = GoodOutcomes => n >= 1)
     /\ used' = used + n /\ reads' = reads + 1
+    /\ pstep' = 0                          \* the steps start over on the message just delivered
     /\ UNCHANGED <<phase, cur, last>>
 
 End(out, n, peak) ==
     /\ phase \in {"call", "stream"}
     /\ out \in Env
     /\ n \in 0..(cur.len - used)          \* bytes consumed by the final (failing or only) step
-    /\ last' = [out |-> out, used |-> used + n, reads |-> reads, peak |-> peak, len |-> cur.len, dec |-> cur.dec, ct |-> cur.ct]
-    /\ phase' = "idle" /\ cur' = NoCall /\ used' = 0 /\ reads' = 0
+    /\ last' = [out |-> out, used |-> used + n, reads |-> reads, peak |-> peak, len |-> cur.len, dec |-> cur.dec, ct |-> cur.ct,
+                 step |-> StepName(cur.dec, pstep)]   \* the call ended (returned, or panicked / aborted / hung) in this step
+    /\ phase' = "idle" /\ cur' = NoCall /\ used' = 0 /\ reads' = 0 /\ pstep' = 0
 
 PeakChoices(d, ct, len) == {0, Bound(d, ct, len)} \cup (IF Env = GoodOutcomes THEN {} ELSE {Bound(d, ct, len) + 1})
 
 Next ==
     \/ \E d \in ModelDecoders, len \in ModelLens : Begin(d, "auto", 1, len)
     \/ \E n \in 0..3 : Read(n)
+    \/ PostStep
     \/ \E out \in AllOutcomes, n \in 0..3 : \E p \in PeakChoices(cur.dec, cur.ct, cur.len) : End(out, n, p)
 
 Spec == Init /\ [][Next]_vars
@@ -139,11 +225,14 @@ ConsumedOK   == last.used <= last.len
 AllocBounded == last.peak <= Bound(last.dec, last.ct, last.len)
 \* per-step progress (every Read consumed >= 1 byte) implies: a stream is read at most `used` <= len times
 Progress     == last.reads <= last.used
-InCallOK     == (phase = "stream" => reads <= used /\ used <= cur.len) /\ (phase = "idle" => used = 0 /\ reads = 0)
+InCallOK     == (phase = "stream" => reads <= used /\ used <= cur.len) /\ (phase = "idle" => used = 0 /\ reads = 0 /\ pstep = 0)
+\* a call ends in the decoder itself or in one of the catalogued steps of that decoder
+StepKnown    == last.step = "" \/ last.step \in StepSet(last.dec)
 
 \* the same contract as an operator on a logged call, used by the trace specification
-CallOK(d, ct, len, out, consumed, nreads, peak) ==
+CallOK(d, ct, len, out, consumed, nreads, peak, step) ==
     /\ out \in GoodOutcomes
+    /\ (step = "" \/ step \in StepSet(d))
     /\ consumed <= len
     /\ peak <= Bound(d, ct, len)
     /\ (d \in StreamDecoders => nreads <= consumed)
@@ -194,6 +283,25 @@ FieldOps(lay, i, donor, sweepFirst) ==
         \cup {[op |-> "trunc"], [op |-> "drop"], [op |-> "dup"],
               [op |-> "splice", from |-> donor.id, g |-> j, mode |-> "replace"],
               [op |-> "splice", from |-> donor.id, g |-> j, mode |-> "insert"]}
+
+\* Joint boundary plan of a segment identifier (layout fields ih: height u8, ii: idx u64; 0 = the layout has none).
+\* The handlers compute idx * 2^height (leaf offset), 2 * offset (MMR position), offset + 2^height - 1 in wrapping release
+\* arithmetic: heights 0..255 (256 = keep the valid one) against a few idx values; every idx within 1 of a power of two
+\* against the heights around the limits of the readers; and idx chosen so that idx * 2^height is within 2^height of
+\* 2^62, 2^63, 2^64.  The harness expands the cross products.
+Keep == V(-2, 0)
+Pow2Near == {V(k, dd) : k \in 0..63, dd \in {-1, 0, 1}}
+IdentOps(lay) ==
+    IF lay.ih = 0 THEN {}
+    ELSE {[op |-> "ident", g |-> lay.ii, hs |-> {h \in 0..256 : TRUE}, vs |-> {Lit(0), Lit(1), Keep, V(62, 0), V(63, 0), V(64, -1)}],
+          [op |-> "ident", g |-> lay.ii, hs |-> {0, 1, 2, 13, 14, 63, 64, 256}, vs |-> Pow2Near \cup {Lit(0), V(64, -2), V(64, -1)}],
+          [op |-> "identprod", g |-> lay.ii, es |-> {62, 63, 64}, hs |-> {h \in 0..63 : TRUE}, ds |-> {-1, 0, 1}]}
+\* a segment proof (layout field pf: its hash count; 0 = none) re-encoded one hash short, one hash long, empty
+ProofOps(lay) == IF lay.pf = 0 THEN {} ELSE {[op |-> "proof", deltas |-> {-1, 0, 1}]}
+IdentOK(lay) ==
+    /\ lay.ih > 0 => /\ lay.ih \in 1..Len(lay.kinds) /\ lay.ii \in 1..Len(lay.kinds)
+                     /\ lay.kinds[lay.ih] = "u8" /\ lay.kinds[lay.ii] = "u64"
+    /\ lay.pf > 0 => lay.pf \in 1..Len(lay.kinds) /\ lay.kinds[lay.pf] = "u64"
 
 \* fields mutated in a long layout (index lists of thousands of u16): the head, the tail, and a sample
 FieldsOf(lay, maxFields) ==
